@@ -22,7 +22,7 @@ CFG = dict(
     spec_what="samples / frames / labels kept by the filters differ from the C06 statement (frame-sample rules of S_Filter.v)",
     trusted_base=["Go regexp engine (its answers are shipped as a match table in every case)",
                   "translator gen-unittable + M_Measure.scale (C15) for numeric tag ranges; float64 vs exact rationals",
-                  "numLabelUnits computed by Profile.NumLabelUnits and shipped as input",
+                  "numLabelUnits: an input of the applyfocus op (as for applyFocus itself); modelled (num_label_units) and compared (op numunits) for the end-to-end cases",
                   "export shim internal/driver/zz_verif_c06.go (calls applyFocus with a config built from defaultConfig)"],
     assumptions=["end-to-end: -proto/-traces of the command line and sessions, /top of the web UI; other report formats, -base/-diff_base, saved configs, numeric tagroot keys not covered",
                  "profiles are valid in the sense of wf_profile (a fragment of Profile.CheckValid)",
